@@ -3,7 +3,8 @@
 what the property leaves open (tie-breaks, internal order, redundant work, numbering, growth policy, ...): the checks must
 stay silent on it.  The prompt contains the property text and the worktree path only - nothing about /verif."""
 import json, os, subprocess, sys
-root = sys.argv[1]; ids = sys.argv[2:]
+root = sys.argv[1]; ids = [a for a in sys.argv[2:] if not a.startswith("--style=")]
+style = ([a[len("--style="):] for a in sys.argv[2:] if a.startswith("--style=")] or [""])[0]
 props = {}
 for l in open(os.path.join(os.path.dirname(__file__), "..", "properties.jsonl")):
     p = json.loads(l); props[p["id"]] = p
@@ -17,6 +18,8 @@ Quantified over: {qtext}
 Code the property is anchored in: {files}
 
 Ideas for what a property may leave open (pick what fits this property and this code; combine two or three if you can): the tie-break among entries that compare equal under the documented order; the order in which a batch of independent things is done internally (which waiter's predicate is evaluated first, which of several simultaneous wake-ups is scheduled first when their documented order keys are equal, in which order an ending process drops what it holds); numbering of internal handles; initial sizes and growth factors of internal containers; redundant but harmless work (an extra history sample that repeats the current value, an extra signal to a waiting list whose first waiter cannot be served, a re-check that is always true); an equivalent reformulation of arithmetic that gives bit-identical or mathematically equal results; caching that is invalidated correctly; different but documented-as-unspecified return values; memory layout; logging.
+
+{style}
 
 Requirements:
 - It modifies library sources only (src/, include/, ...), not tests; 5-40 lines.
@@ -43,6 +46,6 @@ for id in ids:
     p = props[id]; wt = os.path.join(root, id)
     if not os.path.isdir(wt):
         subprocess.check_call(["git", "-C", "/repo", "worktree", "add", "-q", "--detach", wt, "HEAD"])
-    s = tmpl.format(wt=wt, id=id, title=p["title"], statement=p["statement"], qtext=p["quantifier"]["text"], files=", ".join(p["anchors"]["files"]))
+    s = tmpl.format(style=style, wt=wt, id=id, title=p["title"], statement=p["statement"], qtext=p["quantifier"]["text"], files=", ".join(p["anchors"]["files"]))
     open(os.path.join(root, "prompts", id + ".txt"), "w").write(s)
 print("ok", ids)
